@@ -628,6 +628,48 @@ fn describe(g: &RGraph) -> GraphDesc {
     }
 }
 
+/// The graph hypotheses of C25.T2 / C02 / C22 / C26 (`UniqueProducer`, `WF.outsValue`, operator
+/// inputs are value or constant nodes, a top-level graph has no captures), evaluated on the real
+/// loaded `Graph`. Returns the violated assumptions.
+fn graph_assumptions(g: &RGraph, top: bool) -> Vec<String> {
+    let mut bad = vec![];
+    let mut producer: HashMap<u32, u32> = HashMap::new();
+    let is_value = |id: NodeId| matches!(g.get_node(id), Some(RNode::Value(_)));
+    let is_value_or_const = |id: NodeId| matches!(g.get_node(id), Some(RNode::Value(_)) | Some(RNode::Constant(_)));
+    let mut ops: Vec<(u32, &RNode)> = g.iter().map(|(id, n)| (id.as_u32(), n)).collect();
+    ops.sort_by_key(|e| e.0);
+    for (id, n) in ops {
+        let RNode::Operator(op) = n else { continue };
+        for o in op.output_ids().iter().flatten() {
+            if !is_value(*o) {
+                bad.push(format!("outsValue: output {} of operator {id} is not a value node", o.as_u32()));
+            }
+            if let Some(prev) = producer.insert(o.as_u32(), id) {
+                if prev != id {
+                    bad.push(format!("UniqueProducer: value {} is produced by operators {prev} and {id}", o.as_u32()));
+                }
+            }
+        }
+        for i in op.input_ids().iter().flatten() {
+            if !is_value_or_const(*i) {
+                bad.push(format!("inputsValueOrConstant: input {} of operator {id}", i.as_u32()));
+            }
+        }
+        for (pos, a) in op.operator().in_place_inputs().iter().enumerate() {
+            if op.operator().in_place_inputs().iter().skip(pos + 1).any(|b| b == a) {
+                bad.push(format!("idxNodup: in_place_inputs of operator {id} repeats {a}"));
+            }
+        }
+        if !op.operator().in_place_inputs().is_empty() && op.operator().as_subgraph_op().is_some() {
+            bad.push(format!("notSub: subgraph operator {id} declares in-place inputs"));
+        }
+    }
+    if top && !g.captures().is_empty() {
+        bad.push("noCaptures: the top-level graph has captures".into());
+    }
+    bad
+}
+
 // ------------------------------------------------------------------ trace -> request lines
 
 #[derive(Default)]
@@ -784,21 +826,26 @@ fn frame_lines(f: &Frame, graphs: &HashMap<usize, &RGraph>) -> Option<(String, S
     // script: lengths of the operator results per executed step
     let mut script = vec![];
     let n = f.steps.len();
+    let supplied: HashSet<u32> = f.owned.iter().chain(f.borrowed.iter()).map(|e| e.0).collect();
     let complete = !f.panicking && (f.outs.len() == f.outputs.len()) && n == f.plan.len()
-        && f.steps.last().map(|s| step_done(s, g)).unwrap_or(true);
+        && f.steps.last().map(|s| step_done(s, g, &supplied)).unwrap_or(true);
     for (k, s) in f.steps.iter().enumerate() {
         let failed = k + 1 == n && !complete;
         if failed {
             script.push("E".to_string());
         } else {
             let Some(RNode::Operator(op)) = g.get_node(NodeId::from_u32(s.op)) else { return None };
+            // operator outputs are not stored under ids the caller supplied (fix 204e787), so the
+            // hook reports no length for them
             let mut it = s.stored.iter();
             let lens: Vec<String> = op
                 .output_ids()
                 .iter()
                 .map(|o| match o {
-                    Some(_) => it.next().map(|e| e.1.to_string()).unwrap_or("0".into()),
-                    None => "0".into(),
+                    Some(id) if !supplied.contains(&id.as_u32()) => {
+                        it.next().map(|e| e.1.to_string()).unwrap_or("0".into())
+                    }
+                    _ => "0".into(),
                 })
                 .collect();
             script.push(if lens.is_empty() { ".".into() } else { lens.join(",") });
@@ -855,10 +902,14 @@ fn frame_lines(f: &Frame, graphs: &HashMap<usize, &RGraph>) -> Option<(String, S
     Some((req, ans, bad))
 }
 
-fn step_done(s: &StepT, g: &RGraph) -> bool {
+fn step_done(s: &StepT, g: &RGraph, supplied: &HashSet<u32>) -> bool {
     match g.get_node(NodeId::from_u32(s.op)) {
         Some(RNode::Operator(op)) => {
-            let expected = op.output_ids().iter().filter(|o| o.is_some()).count();
+            let expected = op
+                .output_ids()
+                .iter()
+                .filter(|o| o.map(|id| !supplied.contains(&id.as_u32())).unwrap_or(false))
+                .count();
             s.stored.len() == expected
         }
         _ => false,
@@ -1151,6 +1202,20 @@ fn main() {
         all_graphs(model.verif_graph(), &mut gs);
         let graphs: HashMap<usize, &RGraph> = gs.iter().map(|g| (*g as *const RGraph as usize, *g)).collect();
         let snap = snapshot_constants(&model);
+        // assumptions of the T2 theorems, on the loaded graphs (reported separately from the property)
+        {
+            let mut bad = vec![];
+            for (gi, g) in gs.iter().enumerate() {
+                bad.extend(graph_assumptions(g, gi == 0).into_iter().map(|m| format!("graph {gi}: {m}")));
+            }
+            if bad.is_empty() {
+                out.bucket("assumption.graph.ok");
+            } else {
+                out.bucket("assumption.graph.VIOLATED");
+                let req = format!("# model {mi} seed {} graph assumptions", args.seed);
+                out.case(&req, "-", Some(&format!("ASSUMPTION (not the property): {}", bad.join("; "))), false);
+            }
+        }
         // distinct requests and a schedule with repeats
         let n_req = 2 + rng.usize_below(4);
         let mut reqs = vec![];
@@ -1290,6 +1355,43 @@ fn main() {
             }
             let rq = &rq2;
             let (o, _, mut fails) = run_request(&fresh, rq, None, false);
+            // assumption `wf`: no id supplied twice, supplied ids are value or constant nodes
+            {
+                let mut seen = HashSet::new();
+                let g = fresh.verif_graph();
+                let ok = rq.ins.iter().all(|i| {
+                    seen.insert(i.id)
+                        && matches!(g.get_node(i.id), Some(RNode::Value(_)) | Some(RNode::Constant(_)))
+                });
+                out.bucket(if ok { "assumption.request_wf.ok" } else { "assumption.request_wf.VIOLATED" });
+                if !ok {
+                    let req = format!("# model {mi} request {ri} seed {} request assumptions", args.seed);
+                    out.case(&req, "-", Some("ASSUMPTION (not the property): request not well formed"), false);
+                }
+            }
+            // assumption `opContract` (in place == out of place): the same request with the hook's
+            // never-in-place reference mode must give the same bits
+            {
+                exec_trace::set_never_in_place(true);
+                let (o_ref, _, _) = run_request(&fresh, rq, None, false);
+                exec_trace::set_never_in_place(false);
+                let same = o.same(&o_ref);
+                out.bucket(if same { "assumption.op_contract.ok" } else { "assumption.op_contract.VIOLATED" });
+                if !same {
+                    let req = format!("# model {mi} request {ri} seed {} operator contract", args.seed);
+                    out.case(
+                        &req,
+                        "-",
+                        Some(&format!(
+                            "ASSUMPTION (not the property): in-place and never-in-place runs differ ({} vs {}); outputs {:?}",
+                            o.tag(),
+                            o_ref.tag(),
+                            rq.outs.iter().map(|x| x.0.clone()).collect::<Vec<_>>()
+                        )),
+                        false,
+                    );
+                }
+            }
             if let Some(prev1) = &first_1t[ri] {
                 // and on a second fresh copy with the 1-thread pool
                 if let Ok(fresh1) = load(&gm) {
